@@ -48,10 +48,11 @@ harness(void) {
   vp_read_fd = VP_FD0;
 
 #if VP_IO == 0
-  vp_cur_start = start;
-  vp_cur_end = start + len;
-  vp_expect = start;
+  vp_cur_start = 1000;           /* stream offset of vp_stream[0] */
+  vp_cur_end = 1000 + start + len;
+  vp_expect = 1000 + start;
   r = ldb_write(VP_FD0, vp_stream + start, len);
+  vp_expect -= 1000;
   if (r >= 0) {
     VP_ASSERT(!vp_hard_fail, "ldb_write succeeds only if no write(2) failed");
     VP_ASSERT(vp_expect == start + len, "ldb_write >= 0: every byte was accepted (in order, once: asserted per write(2))");
